@@ -122,12 +122,13 @@ type poolRun struct {
 	out        *Out
 	users      []*wallet.KeyPair
 	lis        *poolListener
-	subscribed bool // the RPC subscription server is one of the chain's listeners
-	vk         *viewKeeper                   // views of pooled positions handed out earlier and still held (views.go)
-	what       string                        // the operation being made (for the details of failing oracles)
+	subscribed bool                         // the RPC subscription server is one of the chain's listeners
+	vk         *viewKeeper                  // views of pooled positions handed out earlier and still held (views.go)
+	what       string                       // the operation being made (for the details of failing oracles)
 	sib        map[types.Address][]*sibling // competitors prepared while their parent was the frontier (ladder.go)
-	quiet      *wallet.KeyPair               // an account nobody looks at after every operation: it is read (rpc-style) only now and then (reorg.go)
-	broken     bool                          // the clause failed after a momentum delete: the history ends (reorg.go)
+	quiet      *wallet.KeyPair              // an account nobody looks at after every operation: it is read (rpc-style) only now and then (reorg.go)
+	broken     bool                         // the clause failed after a momentum delete: the history ends (reorg.go)
+	longCases  int
 }
 
 func (r *poolRun) views() map[types.Address]acctView {
@@ -159,6 +160,15 @@ func (r *poolRun) craft(u *wallet.KeyPair, prev types.HashHeight, extra uint64, 
 }
 
 func (r *poolRun) emitStep(before acctView, opTerm M, code int64, after acctView, tag string) {
+	// the model evaluates the whole account chain: of the cases on chains of more than 60 blocks (histories with a
+	// backlog phase) every other one is replayed (the Coq evaluation of the cases dominates the wall time of the check)
+	if len(before.confirmed)+len(before.pool) > 60 {
+		r.longCases++
+		if r.longCases%2 == 0 {
+			r.out.Count("pool:model-replay-skipped:chain-longer-than-60-blocks")
+			return
+		}
+	}
 	r.out.Case("pool_step", Tup(before.chainTerm(), U64(uint64(len(before.confirmed))), opTerm),
 		Tup(I64(code), hashesTerm(after.pool), U64(uint64(len(after.confirmed)))), tag)
 }
